@@ -861,6 +861,22 @@ Proof.
   intros H. apply wmts_address_exact_l; destruct latlong; cbn in H; inversion H; lia.
 Qed.
 
+(* ---- KML LatLonBox: it is the transformed rectangle of the tile, except for tiles that end at the border of the mercator
+   world; in particular for every tile of a regional grid, wherever the grid ends *)
+Lemma kml_bbox_to_wgs_plain_l T merc world tenth pole src :
+  (merc = false \/ let '(_, s1, _, s3) := src in tenth <= Z.abs (s1 + world) /\ tenth <= Z.abs (s3 - world)) ->
+  kml_bbox_to_wgs T merc world tenth pole src = T src.
+Proof.
+  unfold kml_bbox_to_wgs. destruct (T src) as [[[b0 b1] b2] b3]. destruct src as [[[s0 s1] s2] s3].
+  intros [-> | [H1 H3]]; [reflexivity|]. destruct merc; [|reflexivity].
+  replace (Z.abs (s1 - - world) <? tenth) with false by lia. replace (Z.abs (s3 - world) <? tenth) with false by lia. reflexivity.
+Qed.
+
+Example ex_kml_bbox_to_wgs :
+  kml_bbox_to_wgs (fun _ => (1, 2, 3, 4)) true 200375083 1 90000000 (0, -200375083, 10, 5) = (1, -90000000, 3, 4) /\
+  kml_bbox_to_wgs (fun _ => (1, 2, 3, 4)) true 200375083 1 90000000 (0, -1000, 10, 5) = (1, 2, 3, 4).
+Proof. split; reflexivity. Qed.
+
 (* ---- content of the served tile (composition with the meta tile model of C04, imported read-only) *)
 From Coq Require Import FinFun.
 From MP Require Import Base MetaGrid.
